@@ -169,6 +169,10 @@ StepOther ==
   /\ UNCHANGED <<createQ, recvQ, pending, net, nreq, seqc, herr, hist>>
 Step == /\ Running /\ ~herr /\ UNCHANGED sub
         /\ IF Cur.mn = "create_epr" THEN (IF CreateRefused THEN StepRefused ELSE StepCreate) ELSE IF Cur.mn = "recv_epr" THEN StepRecv ELSE StepOther
+(* the scheduler resumes a waiting subroutine although nothing has arrived: it finds itself still waiting (a stutter) *)
+Poll == /\ Running /\ ~herr /\ Cur.mn \notin {"create_epr", "recv_epr"}
+        /\ Exec(m, Cur).status = "wait"
+        /\ UNCHANGED vars
 Finish == /\ m.status = "run" /\ m.pc >= Len(Prog)
           /\ IF sub < Len(Progs) THEN m' = StartSub(m) /\ sub' = sub + 1
                                 ELSE m' = [m EXCEPT !.status = "done"] /\ sub' = sub
